@@ -29,10 +29,10 @@ func init() {
 			"configurations are separate runs. Oracle: equality with the reference depacketiser run over the arrival sequence (bytes, order, nothing invented, incomplete fragmented units yield nothing), " +
 			"one PTS per RTP timestamp, PTS differences = RTP timestamp differences / clock rate. distinct = event-log hash; non-trivial = at least one link fault fired or a pre-emption",
 		Assumptions: []string{
-			"NAL units are at least 3 bytes, no filler NAL (type 12), no RTCP sender report arriving mid-stream, no 32-bit RTP timestamp wrap (outside the statement's quantifier)",
+			"NAL units are at least 3 bytes, no filler NAL (type 12), no first RTCP sender report arriving mid-stream (it re-bases the clock: outside the statement's quantifier)",
 			"a fragmented unit whose fragments were duplicated or reordered may be dropped (the statement only forbids emitting truncated or spliced units)",
 		},
-		RequiredProbes: []string{"c06.fu-broken-by-loss", "c06.fu-complete", "c06.seq-wrap-inside-fu", "c06.sender-report-first"},
+		RequiredProbes: []string{"c06.fu-broken-by-loss", "c06.fu-complete", "c06.seq-wrap-inside-fu", "c06.sender-report-first", "c06.rtp-timestamp-wrap"},
 	})
 }
 
@@ -65,8 +65,14 @@ func buildC06(tier string) sim.Scenario {
 		nAU := 2 + tp.Choose(7)
 		var aus []oracle.AU
 		ts := uint32(0x7fff0000)
-		if tp.Bool() {
+		switch tp.Choose(4) {
+		case 1, 2:
 			ts = 90000
+		case 3:
+			// RFC 3550: the initial RTP timestamp is random, so the 32-bit counter wraps inside ordinary streams;
+			// timestamp differences are differences modulo 2^32
+			ts = uint32(0) - uint32(3000*(1+tp.Choose(nAU))) + uint32(tp.Choose(3000))
+			w.Probe("c06.rtp-timestamp-wrap")
 		}
 		id := 1
 		size := func() int {
@@ -123,6 +129,10 @@ func buildC06(tier string) sim.Scenario {
 		seq := uint16(65536 - 1 - tp.Choose(len(pkts)+2))
 		aseq := uint16(65534)
 		ats := uint32(441000)
+		if tp.OneIn(4) {
+			ats = uint32(0) - uint32(1024*(1+tp.Choose(4))) + uint32(tp.Choose(1024))
+			w.Probe("c06.rtp-timestamp-wrap")
+		}
 		for i, pk := range pkts {
 			stream = append(stream, sent{true, oracle.Arrival{Seq: seq, TS: pk.Timestamp, Payload: pk.Payload}})
 			if pk.Frag == 2 && seq == 0 {
